@@ -38,6 +38,12 @@ def primitives_for(e):
             m2 = ulrun.MsgPlan(11, nc=2)
             _, b2 = ulrun.frame('PD', pdvs=[(m2.pdvs[0][0], 11, m2.pdvs[0][1], 1)])
             out.append(('PD-partial', lib_decode(b2), {'msg': None}))
+            # the REST of a message whose first PDU was received earlier, in Sta6 (for Sta7: before the local release
+            # request): DT-2 / AR-6 complete the message and indicate it
+            m3 = ulrun.MsgPlan(13, nc=2)
+            _, b3a = ulrun.frame('PD', pdvs=[(m3.pdvs[0][0], 13, m3.pdvs[0][1], 1)])
+            _, b3b = ulrun.frame('PD', pdvs=[(fl, 13, v, 1) for fl, v in m3.pdvs[1:]])
+            out.append(('PD-rest-of-message', lib_decode(b3b), {'msg': 13, 'pre': lib_decode(b3a), 'only_in': (6, 7)}))
             # a well-framed P-DATA-TF whose content is no part of any DIMSE message (message control header 7): where the
             # content is looked at (Sta6, Sta7) this is an invalid PDU - the cell of Evt19 says what must happen
             b3 = bytes([4, 0]) + (10).to_bytes(4, 'big') + (6).to_bytes(4, 'big') + bytes([1, 7, 1, 2, 3, 4])
@@ -86,6 +92,19 @@ def run_cell(exp, label, prim, detail):
         sm.current_state = s - 1
         if exp['artimBefore']:
             p.timer.start()
+        if detail.get('pre') is not None:
+            # history: the first PDU of the message arrived in Sta6 (real DT-2); for Sta7 the local user then asked for
+            # release (real AR-1)
+            sm.current_state = 5
+            p.primitive = detail['pre']
+            sm.action(9)
+            if s == 7:
+                p.primitive = ulrun.user_pdu('RLRQ')
+                sm.action(10)
+            p.drain_user()
+            for sk in ([sock] if sock is not None else []):
+                del sk.sent[:]
+            sm.current_state = s - 1
         t_before = p.timer._start_time
         # Evt18 IS the expiry of ARTIM: let it really have expired; for every other event a second passes
         env.clock.now += (p.timer._max_seconds + 1.0) if (e == 18 and exp['artimBefore']) else 1.0
@@ -277,6 +296,8 @@ def main(tier='quick'):
                 if exps is None:
                     exps = [{'st': s, 'ev': e, 'req': req, 'act': 'none', 'next': s, 'artimBefore': s in (2, 13)}]
                 for label, prim, detail in primitives_for(e):
+                    if detail.get('only_in') and s not in detail['only_in']:
+                        continue
                     if detail.get('as_evt'):
                         if s not in (6, 7):
                             continue
